@@ -323,6 +323,62 @@ def history_config(h, mesh, spec):
         h.concrete('repeated facet query is stable', np.array_equal(a1, a3) and np.array_equal(a2, np.asarray(b2.get_dofs(np.array([1], dtype=np.int32)).flatten())))
 
 
+def filters_config(h, mesh, spec, free=None):
+    """Chains of name filters (keep / drop / skip=) are set operations on the DOF names: a chain returns exactly the DOFs of the
+    unfiltered query whose name passes EVERY filter of the chain, whatever an earlier filter already removed."""
+    import itertools
+    import skfem as S
+    with warnings.catch_warnings():
+        warnings.simplefilter('ignore')
+        m = make_mesh(h, mesh, free=free)
+        e = make_elem(spec)
+        dim = m.p.shape[0]
+        basis = S.CellBasis(m, e, intorder=1) if m.refdom.__name__ in ('RefQuad', 'RefHex') else S.CellBasis(m, e)
+        ed = np.asarray(basis.element_dofs)
+        names_local = dof_names(e, dim)
+        gname = {}
+        for c in range(ed.shape[1]):
+            for i in range(ed.shape[0]):
+                gname[int(ed[i, c])] = names_local[i] if i < len(names_local) else '?'
+        allnames = sorted(set(gname.values()))
+        groups = [[n] for n in allnames] + ([allnames[:2], allnames[-2:]] if len(allnames) > 2 else [])
+        filters = [(op, g) for op in ('keep', 'drop') for g in groups]
+        t_ = h.sym('t', ())
+        h.zero('trivial', t_ - t_)
+        h.sample(dict(mesh=mesh, element=spec, names=allnames, filters=len(filters)))
+
+        def passes(name, flt):
+            op, g = flt
+            return (name in g) if op == 'keep' else (name not in g)
+        queries = [('boundary', lambda **kw: basis.get_dofs(**kw)),
+                   ('facet0', lambda **kw: basis.get_dofs(np.array([0], dtype=np.int32), **kw)),
+                   ('cell0', lambda **kw: basis.get_dofs(elements=np.array([0], dtype=np.int32), **kw))]
+        for qname, q in queries:
+            D = set(np.asarray(q().flatten()).tolist())
+            bad = []
+            n = 0
+            for chain in itertools.chain(itertools.product(filters, repeat=2), itertools.product(filters[::3], repeat=3)):
+                view = q()
+                for op, g in chain:
+                    view = getattr(view, op)(list(g) if len(g) > 1 else g[0])
+                got = set(np.asarray(view.flatten()).tolist())
+                want = {d for d in D if all(passes(gname[d], f) for f in chain)}
+                n += 1
+                if got != want:
+                    bad.append('%s: extra %s missing %s' % ('.'.join('%s(%s)' % (op, ','.join(g)) for op, g in chain), sorted(got - want)[:4], sorted(want - got)[:4]))
+            h.concrete('%s: all %d chains of 2-3 name filters == DOFs whose name passes every filter' % (qname, n), not bad, '; '.join(bad[:3]))
+            # skip= of the query followed by a filter
+            bad = []
+            for g in groups:
+                for flt in filters:
+                    view = q(skip=list(g))
+                    got = set(np.asarray(getattr(view, flt[0])(list(flt[1]) if len(flt[1]) > 1 else flt[1][0]).flatten()).tolist())
+                    want = {d for d in D if gname[d] not in g and passes(gname[d], flt)}
+                    if got != want:
+                        bad.append('skip=%s.%s(%s)' % (g, flt[0], flt[1]))
+            h.concrete('%s: skip= followed by a filter' % qname, not bad, '; '.join(bad[:3]))
+
+
 def all_subsets(items, maxn=None):
     out = []
     for r in range(1, len(items) + 1):
@@ -376,6 +432,16 @@ def build_configs(tier, seed):
         add('tet2/%s' % spec, facets_config, mesh='tet2', spec=spec, subsets=sel, free=[0] if quick else None, timeout=900 if quick else 3000)
     add('tet2/ElementComposite(ElementTetP2(),ElementTetP0())', facets_config, mesh='tet2', spec='ElementComposite(ElementTetP2(), ElementTetP0())',
         subsets=[[0], [3], [1, 2], [0, 1, 2, 3, 4, 5, 6]], free='none')
+    # edge DOFs and facet DOFs from DIFFERENT components (local ordering nodal, edge, facet, interior)
+    add('tet2/ElementComposite(ElementTetN1(),ElementTetRT1())', facets_config, mesh='tet2', spec='ElementComposite(ElementTetN1(), ElementTetRT1())',
+        subsets=[[0], [3], [1, 2], [0, 1, 2, 3, 4, 5, 6]], free='none', timeout=900)
+    add('tet2/ElementComposite(ElementTetP2(),ElementTetRT1())', facets_config, mesh='tet2', spec='ElementComposite(ElementTetP2(), ElementTetRT1())',
+        subsets=[[0], [2, 5]], free='none', timeout=900)
+    # chains of name filters
+    for mesh, spec, free in [('tri2heron', 'ElementTriArgyris', 'none'), ('tri2', 'ElementComposite(ElementVector(ElementTriP2()), ElementTriP1())', 'none'),
+                             ('tet2', 'ElementComposite(ElementTetP2(), ElementTetRT1(), ElementTetP0())', 'none'),
+                             ('tri2heron', 'ElementTriMorley', 'none')]:
+        add('filters/%s/%s' % (mesh, spec.replace(' ', '')), filters_config, mesh=mesh, spec=spec, free=free)
     # hexes (numeric geometry, direct traces): 11 facets
     for spec in ['ElementHex1', 'ElementHexS2'] + ([] if quick else ['ElementHex2']):
         sel = [sorted(rng.choice(11, k, replace=False).tolist()) for k in ((1, 2, 3, 5) if quick else (1, 1, 2, 2, 3, 4, 5, 7))] + [list(range(11))]
